@@ -157,6 +157,19 @@ func c01(c *Ctx) {
 		r.Pass("roots", core.FuncName(f), p.Pos(f.Pos()), desc[f])
 	}
 	reach := p.Reachable(roots)
+	if p.Whole {
+		// thorough: add what a whole-program VTA call graph reaches through dependencies and callbacks
+		vr := p.ReachableVTA(roots)
+		extra := 0
+		for f := range vr {
+			if !reach[f] {
+				reach[f] = true
+				extra++
+			}
+		}
+		r.Count("functions_added_by_whole_program_VTA", extra)
+		r.Count("functions_reachable_VTA", len(vr))
+	}
 	r.Count("peer_reachable_functions", len(reach))
 	r.Count("roots", len(roots))
 
